@@ -188,6 +188,7 @@ class World:
         h.observe(0.05); h.observe(2.0)
         Gauge('up', 'plain gauge', registry=self.reg).set(1)
         Summary('rt', 'a summary', registry=self.reg).observe(0.25)
+        Gauge('a,b', 'a UTF-8 metric name that contains a comma', registry=self.reg).set(7)
         Info('build', 'build info', registry=self.reg).info({'version': '1'})
         self.enc = {'text': exposition.generate_latest, 'om': om.generate_latest}
         self.exposition = exposition
@@ -430,7 +431,7 @@ def gen_malformed(rng, lit):
 
 NAME_KEYS = ['name[]', 'name[]', 'name%5B%5D', 'name%5b%5d', 'name[%5D', 'n%61me[]']
 OTHER_KEYS = ['foo', 'name', 'name[]x', 'xname[]', 'names[]', 'name%5B', 'NAME[]', 'name[][]', 'match[]']
-NAME_VALUES = ['reqs', 'reqs', 'lat_seconds', 'rt', 'build', 'rt_count', 'rt_sum', 'rt_created', 'lat_seconds_count', 'reqs', 'reqs_total', 'reqs_created', 'temp_celsius', 'lat_seconds', 'lat_seconds_bucket', 'lat_seconds_sum', 'up',
+NAME_VALUES = ['a,b', 'a%2Cb', 'up,reqs_total', 'up%2Creqs_total', 'up,', ',up', 'a,b,up', 'a', 'reqs', 'reqs', 'lat_seconds', 'rt', 'build', 'rt_count', 'rt_sum', 'rt_created', 'lat_seconds_count', 'reqs', 'reqs_total', 'reqs_created', 'temp_celsius', 'lat_seconds', 'lat_seconds_bucket', 'lat_seconds_sum', 'up',
                'build_info', 'build', 'nonexistent', '', '', 'temp%5Fcelsius', 'u%70', 'a+b', '%C3%A9', 'up&', 'reqs%26up', 'up=1']
 
 
@@ -487,6 +488,8 @@ def corpus():
            c(q='name[]=up#x'), c(q='name[]=up#'), c(q='#name[]=up'), c(q='name[]=up%23x'), c(q='name[]=up?x=1'), c(q='name[]=up;name[]=reqs'),
            c(q='name[]=reqs'), c(q='name[]=lat_seconds'), c(q='name[]=rt'), c(q='name[]=build'), c(q='name[]=reqs&name[]=reqs_total'),
            c(q='name[]=rt&name[]=rt_sum&name[]=up', acc=[OM]), c(q='name[]=lat_seconds&name[]=lat_seconds_bucket&name[]=build_info', ae=['gzip']),
+           c(q='name[]=up,reqs_total'), c(q='name[]=up%2Creqs_total'), c(q='name[]=a,b'), c(q='name%5B%5D=a%2Cb', acc=[OM], ae=['gzip']),
+           c(q='name[]=a,b&name[]=up'), c(q='name[]=up,'), c(q='name[]=,'), c(q='name[]=a&name[]=b'),
            c(q='&&name[]=up&&'), c(q='=&==&name[]'), c(acc=[OM], q='a=1#name[]=up')]
     out = [wire_case(x) for x in out]
     for m in METHODS:
@@ -588,10 +591,10 @@ def oracle_get(world, fe, r, acc, ae, names, compression, case):
                 ' (it is the unrestricted exposition)' if restr is not None and body == world.expo(fmt, None) else '')
             if not hint and restr is not None:
                 got, want = set(blocks(body)), set(blocks(exp))
-                extra = sorted(l.split(b' ')[0].split(b'{')[0].decode('latin-1') for b in got - want for l in b.splitlines()
-                               if l and not l.startswith(b'#'))
-                miss = sorted(l.split(b' ')[0].split(b'{')[0].decode('latin-1') for b in want - got for l in b.splitlines()
-                              if l and not l.startswith(b'#'))
+                def series(bs):
+                    return sorted((l.split(b'}')[0] + b'}' if l.startswith(b'{') else l.split(b' ')[0].split(b'{')[0]).decode('latin-1')
+                                  for b in bs for l in b.splitlines() if l and not l.startswith(b'#'))
+                extra, miss = series(got - want), series(want - got)
                 hint = ' (family blocks with series %s are not the expected ones%s)' % (
                     sorted(set(extra))[:8], '; expected blocks with series %s' % sorted(set(miss))[:8] if miss else '')
             fails.append(('C17:body', '%s: body is not the %s exposition of the registry restricted to the sample names %r%s'
@@ -974,7 +977,8 @@ def run(ctx):
     ctx.extra['scope_notes'] = [
         'repeated Accept / Accept-Encoding field lines are out of scope of the agreement oracle (MetricsHandler reads the first line only)',
         'GET /favicon.ico on WSGI (200, empty body) is compared with the model only',
-        'blank name[] values do not count; media types compared case-sensitively, codings case-insensitively',
+        'blank name[] values do not count; a name[] value is ONE name, commas included (name[]=a,b asks for the metric named a,b); '
+        'media types compared case-sensitively, codings case-insensitively',
         'the expected restricted body is computed without the library restriction code (own sample-name filter over one full collect, '
         'fresh registry, format encoder) and compared up to the order of family blocks (a restricted registry iterates a Python set)']
 
